@@ -59,13 +59,32 @@ def class_source(cs):
     """Source text of one user class from its JSON spec."""
     name, kind, base = cs["name"], cs["kind"], cs.get("base") or "Expression"
     fields = cs.get("fields", [])
+    fopts = cs.get("fopts") or [None] * len(fields)
+
+    def decl(f, j):
+        o = fopts[j] if j < len(fopts) else None
+        return f"    {f}: object\n" if not o else f"    {f}: object = dataclasses.field({o})\n"
+
+    # methods left in the class body from before it was converted to a dataclass: the
+    # decorator replaces __eq__/__hash__, the others are consistent with what it generates
+    left = {"eq": "    def __eq__(self, other):\n        return NotImplemented\n",
+            "ne": "    def __ne__(self, other):\n        return not self.__eq__(other)\n",
+            "repr": "    def __repr__(self):\n        return '<' + type(self).__name__ + '>'\n",
+            "hashnone": "    __hash__ = None\n"}
+    leftover = "".join(left[x] for x in cs.get("leftover") or [])
     if kind == "dc":
-        body = "".join(f"    {f}: object\n" for f in fields) or "    pass\n"
+        body = "".join(decl(f, j) for j, f in enumerate(fields)) + leftover or "    pass\n"
         return f"@expr_dataclass()\nclass {name}({base}):\n{body}"
     if kind == "dc_nohash":
-        body = "".join(f"    {f}: object\n" for f in fields)
+        body = "".join(decl(f, j) for j, f in enumerate(fields))
         allf = cs["all_fields"]
-        tup = "".join(f"self.{f}, " for f in allf)
+        hm = cs.get("hash_mode") or "full"
+        if hm == "const":
+            tup = ""                    # a legal, maximally coarse hash: one value per class
+        elif hm == "first":
+            tup = f"self.{allf[0]}, " if allf else ""
+        else:
+            tup = "".join(f"self.{f}, " for f in allf)
         body += (f"    def __hash__(self):\n"
                  f"        return hash(({name!r}, {tup}))\n")
         return f"@expr_dataclass(hash=False)\nclass {name}({base}):\n{body}"
@@ -119,8 +138,9 @@ def make_user_classes(specs):
         mod = types.ModuleType("dst_dyn")
         sys.modules["dst_dyn"] = mod
     ns = mod.__dict__
+    import dataclasses
     ns.update({"Expression": p.Expression, "expr_dataclass": p.expr_dataclass,
-               "__name__": "dst_dyn"})
+               "dataclasses": dataclasses, "__name__": "dst_dyn"})
     for n in spec.NODE_FIELDS:
         ns[n] = getattr(p, n)
     out = {}
@@ -169,14 +189,22 @@ def gen_user_classes(r):
             nf = r.randint(0 if base else 1, 2)
             fields = [f for f in USER_FIELD_NAMES if f not in basef][:nf]
             allf = basef + fields
-            specs.append({"name": name, "kind": kind, "base": base, "fields": fields,
-                          "all_fields": allf})
+            cs = {"name": name, "kind": kind, "base": base, "fields": fields,
+                  "all_fields": allf}
+            if r.random() < 0.35:
+                # per-field dataclass options: none of them takes the field out of what the
+                # statement calls "fields"
+                cs["fopts"] = [r.choice([None, "compare=False", "hash=False", "repr=False",
+                                         "compare=False, hash=False"]) for _ in fields]
+            if kind == "dc" and r.random() < 0.25:
+                cs["leftover"] = r.sample(["eq", "ne", "repr", "hashnone"], r.randint(1, 2))
+            if kind == "dc_nohash":
+                cs["hash_mode"] = r.choice(["full", "full", "first", "const"])
+            specs.append(cs)
             if kind == "dc":
                 decorated.append((name, allf))
                 if r.random() < 0.25:
-                    specs.append({"name": name + "c", "kind": "dc", "base": base,
-                                  "fields": fields, "all_fields": allf,
-                                  "same_qualname_as": name})
+                    specs.append(dict(cs, name=name + "c", same_qualname_as=name))
         elif kind == "legacy_sub":
             if decorated and r.random() < 0.6:
                 base, basef = r.choice(decorated)
@@ -216,6 +244,11 @@ def _field_kinds_for(allf, base_kinds):
 class _Gen(spec.TermGen):
     def field(self, kind, depth):
         r = self.rng
+        if kind == "anyt":
+            if r.random() < 0.5:
+                return ["t", [self.term(depth + 1) if r.random() < 0.4 else self.const()
+                              for _ in range(r.randint(0, 3))]]
+            kind = "any"
         if kind == "any":
             x = r.random()
             if x < 0.5:
@@ -224,7 +257,11 @@ class _Gen(spec.TermGen):
                 return self.const()
             if x < 0.85:
                 return ["s", r.choice(self.idents)]
-            return ["t", [self.const(), ["s", r.choice(self.idents)]]]
+            if r.random() < 0.5:
+                return ["t", [self.const(), ["s", r.choice(self.idents)]]]
+            # a tuple-valued field of any length, the empty one included
+            return ["t", [self.term(depth + 1) if r.random() < 0.5 else self.const()
+                          for _ in range(r.randint(0, 3))]]
         if kind == "ci":
             return ["i", r.randint(0, 2)]
         if kind == "nid":
@@ -238,6 +275,12 @@ class _Gen(spec.TermGen):
         if kind == "sc" and r.random() < 0.15:
             return ["none"]                                              # deprecated None
         return super().field(kind, depth)
+
+
+def _at(t, path):
+    for step in path:
+        t = t[step]
+    return t
 
 
 def _mutate_one_field(r, t, g):
@@ -268,6 +311,9 @@ def _mutate_one_field(r, t, g):
     import copy as _c
     t2 = _c.deepcopy(t)
     path = r.choice(paths)
+    tpaths = [q for q in paths if _at(t, q)[0] == "t"]
+    if tpaths and r.random() < 0.3:
+        path = r.choice(tpaths)          # a tuple that is a proper prefix of the other one
     parent, last = None, None
     node = t2
     for step in path:
@@ -420,6 +466,9 @@ def generate(seed, tier):
         else:
             bk = []
         kinds_of[cs["name"]] = _field_kinds_for(cs["all_fields"], bk)
+        if cs.get("hash_mode") in ("first", "const"):
+            # with a coarse hash every comparison gets past the hash fast path
+            kinds_of[cs["name"]] = [("anyt" if k == "any" else k) for k in kinds_of[cs["name"]]]
         extra_fields[cs["name"]] = kinds_of[cs["name"]]
         classes += [cs["name"]] * 3
     dup_pairs = [(cs["name"][:-1], cs["name"]) for cs in ucs
@@ -697,7 +746,14 @@ def execute(scenario, open_sigs):
 
     def do_hash(name, results=None):
         o = W.objs[name]
-        h = hash(o)
+        try:
+            h = hash(o)
+        except (InjectedInterrupt, RecursionError):
+            raise
+        except Exception as e:  # noqa: BLE001
+            viol("C01/hash-raised", {"obj": name, "exc": f"{type(e).__name__}: {e}"[:200],
+                                     "canon": str(W.canon0[name])[:400]})
+            return None
         fh = W.first_hash.setdefault(name, h)
         if fh != h:
             viol("C01/hash-changed", {"obj": name, "canon": str(W.canon0[name])[:400]})
@@ -853,13 +909,20 @@ def execute(scenario, open_sigs):
             if not isinstance(probe_obj, p.Expression):
                 return ["skip"]
             want = model_eq(canon(probe_obj), W.canon0[key])
-            if ckind == "dict":
-                cont = {ko: 1}
-            elif ckind == "set":
-                cont = {ko}
-            else:
-                cont = frozenset([ko])
-            got = probe_obj in cont
+            try:
+                if ckind == "dict":
+                    cont = {ko: 1}
+                elif ckind == "set":
+                    cont = {ko}
+                else:
+                    cont = frozenset([ko])
+                got = probe_obj in cont
+            except (InjectedInterrupt, RecursionError):
+                raise
+            except Exception as e:  # noqa: BLE001
+                viol("C01/hash-raised", {"obj": key, "exc": f"{type(e).__name__}: {e}"[:200],
+                                         "canon": str(W.canon0[key])[:400]})
+                return ["lookup", None]
             if got != want:
                 viol("C01/lookup-miss" if want else "C01/lookup-false-hit",
                      {"key": key, "probe": pt, "container": ckind,
